@@ -37,6 +37,11 @@ Two bounded-exhaustive drivers on the REAL implementation:
     counters agree with what the harness saw; the drain never stalls (queue
     empty at a horizon far beyond the last possible admission, no frozen
     clock); forwarded times satisfy the wrapped policy's bound.
+    ``entity-burst``: the same oracle on limiters whose policy frees several
+    slots at one instant (fixed window N=2/3, sliding window N=2/3, token
+    bucket capacity 2/3) under bursts of up to 8 same-instant / ns-adjacent
+    requests, queue capacity 3 and 16: the drain has to continue until the
+    queue is empty after the arrivals have stopped.
 """
 from __future__ import annotations
 
@@ -754,6 +759,21 @@ ENTITY_KINDS_DYADIC = [
 ]
 ENTITY_TIMES = [0, S // 2, S - 1, S, S + 1, 2 * S]
 ENTITY_TIMES_THOROUGH = [0, S // 2, S - 1, S, S + 1, 3 * S // 2, 2 * S]
+# limiters whose policy frees MORE THAN ONE slot at one instant (window rollover with N >= 2, several
+# sliding-window entries expiring together, a bucket refilled to >= 2 tokens): the drain must continue at
+# that instant / afterwards until the queue is empty.  Driven with bursts of up to 2N+2 requests.
+ENTITY_KINDS_BURST = [
+    ("rle", ("fixed", 2, 1.0)),
+    ("rle", ("fixed", 3, 1.0)),
+    ("rle", ("sliding", 1.0, 2)),
+    ("rle", ("sliding", 1.0, 3)),
+    ("rle", ("token", 2.0, 2.0, None)),
+    ("rle", ("token", 3.0, 4.0, None)),
+]
+# (time, hops): same-instant burst (created before / after same-instant internal events), ns-adjacent,
+# and the rollover / poll instant itself
+BURST_SYMBOLS = [(0, 0), (0, 1), (1, 0), (S, 0)]
+BURST_SYMBOLS_THOROUGH = [(0, 0), (0, 1), (1, 0), (S // 2, 0), (S - 1, 0), (S, 0)]
 ENTITY_KINDS_NONDYADIC = [
     ("rle", ("fixed", 1, 1.001)),
     ("rle", ("sliding", 1.001, 1)),
@@ -767,9 +787,12 @@ ENTITY_KINDS_NONDYADIC = [
 ENTITY_TIMES_ND = [0, S // 10, 3 * S // 10, 3 * S // 10 + 1, S // 3, 6 * S // 10, 1_000_999_999, 1_001_000_000]
 
 
-def run_entity_driver(run, name, kinds, times, hops, caps, nmax, seed, horizon, dyadic=True):
+def run_entity_driver(run, name, kinds, times, hops, caps, nmax, seed, horizon, dyadic=True, symbols=None):
     t0 = time.time()
-    symbols = [(t, h) for t in times for h in hops]
+    if symbols is None:
+        symbols = [(t, h) for t in times for h in hops]
+    else:
+        times, hops = sorted({t for t, _h in symbols}), sorted({h for _t, h in symbols})
     d = run.driver(name, {"limiters": kinds, "arrival_times_ns": times, "hop_counts": list(hops),
                           "queue_capacities": list(caps), "max_requests": nmax,
                           "horizon_ns": horizon,
@@ -841,6 +864,10 @@ def main(tier, seed, only=None):
         ("entity", lambda: run_entity_driver(run, "entity", ENTITY_KINDS_DYADIC,
                                              ENTITY_TIMES if tier == "quick" else ENTITY_TIMES_THOROUGH,
                                              (0, 1, 2), (0, 1, 2), 4 if tier == "quick" else 5, seed, 64 * S)),
+        ("entity-burst", lambda: run_entity_driver(run, "entity-burst", ENTITY_KINDS_BURST, None, None, (3, 16),
+                                                   8, seed, 64 * S,
+                                                   symbols=BURST_SYMBOLS if tier == "quick"
+                                                   else BURST_SYMBOLS_THOROUGH)),
         ("entity-nondyadic", lambda: run_entity_driver(run, "entity-nondyadic", ENTITY_KINDS_NONDYADIC,
                                                        ENTITY_TIMES_ND, (0, 1), (1, 2),
                                                        3 if tier == "quick" else 4, seed, 16 * S,
